@@ -142,7 +142,7 @@ var steerFuncs = []string{
 	"nsqd.Topic.messagePump", "nsqd.Topic.PutMessage", "nsqd.Topic.PutMessages", "nsqd.Topic.put", "nsqd.Topic.exit", "nsqd.Topic.flush", "nsqd.Topic.Empty",
 	"nsqd.Topic.GetChannel", "nsqd.Topic.getOrCreateChannel", "nsqd.Topic.DeleteExistingChannel", "nsqd.Topic.doPause", "nsqd.Topic.GenerateID",
 	"nsqd.NSQD.GetTopic", "nsqd.NSQD.DeleteExistingTopic", "nsqd.NSQD.Exit", "nsqd.NSQD.PersistMetadata", "nsqd.NSQD.Notify", "nsqd.NSQD.queueScanWorker",
-	"nsqd.tcpServer.Handle", "nsqd.tcpServer.Close",
+	"nsqd.tcpServer.Handle", "nsqd.tcpServer.Close", "nsqd.clientV2.decrInFlightCount",
 }
 
 func qWeightsFor(prop string, r *PRNG) qWeights {
@@ -329,8 +329,8 @@ func genQOps(rc *RunCtx, c QCfg) []Op {
 		if (rc.Prop == "C01" || rc.Prop == "ALL" || rc.Prop == "C08") && r.Chance(1, 25) {
 			add(Op{Kind: "createpub", A: int64(r.Intn(8)), B: int64(r.Intn(8)), C: int64(r.Intn(4))})
 		}
-		if (rc.Prop == "C03" || rc.Prop == "C13" || rc.Prop == "C08" || rc.Prop == "ALL") && r.Chance(1, 30) {
-			add(Op{Kind: "ackempty", A: int64(r.Intn(16)), B: int64(r.Intn(2)), C: int64(r.Intn(8))})
+		if (rc.Prop == "C03" || rc.Prop == "C13" || rc.Prop == "C08" || rc.Prop == "C04" || rc.Prop == "C02" || rc.Prop == "ALL") && r.Chance(1, 30) {
+			add(Op{Kind: "ackempty", A: int64(r.Intn(16)), B: int64(r.Intn(4)), C: int64(r.Intn(8))})
 		}
 		if o.Kind == "admin" && (o.S == "delete_channel" || o.S == "delete_topic") && (rc.Prop == "C08" || rc.Prop == "ALL") && r.Chance(1, 3) {
 			// the same object is asked for again while its deletion is still running
@@ -673,6 +673,7 @@ func (w *qWorld) exec(op Op) {
 		}
 		if w.enforce["C04"] {
 			w.checkLate()
+			w.checkStuckInFlight()
 			if op.B == 0 {
 				w.checkDeferredLate(d)
 			}
@@ -713,10 +714,48 @@ func (w *qWorld) exec(op Op) {
 			return
 		}
 		saved := w.rc.Sched.Rules
-		hold := []string{"nsqd.clientV2.FinishedMessage*", "nsqd.clientV2.RequeuedMessage*"}[op.B%2]
-		w.rc.Sched.Rules = []*simrt.Rule{{Hold: hold, Until: "nsqd.clientV2.SendingMessage*", MaxSpin: 20000, OneShot: true}}
-		w.inBurst = true
-		w.opAnswer(Op{Uid: op.Uid*16 + 1, Kind: []string{"fin", "req"}[op.B%2], A: op.A, B: op.C})
+		if op.B == 2 {
+			// third way out of the in-flight set: the timeout scan. The driver sleeps to the scanner tick at
+			// which the oldest untouched delivery of this connection expires (ticks are multiples of the
+			// scan interval from the daemon's start; a miss only makes this an ordinary empty + publish)
+			// and sends the empty and the publish at that same instant; the scanner is held where it
+			// tells the connection about the timeout.
+			var d *delivery
+			for _, h := range heldOf(co) {
+				if len(h.Touches) == 0 && len(h.pendingTouch) == 0 && (d == nil || h.At.Before(d.At)) {
+					d = h
+				}
+			}
+			iv := ms(w.cfg.ScanIntervalMs)
+			if d == nil || iv <= 0 {
+				return
+			}
+			dl := d.At.Add(co.MsgTimeout).Sub(w.mainStart)
+			tick := w.mainStart.Add((dl + iv - 1) / iv * iv)
+			wait := time.Until(tick)
+			if wait <= 0 || wait > 40*time.Second {
+				return
+			}
+			w.rc.Sched.Rules = []*simrt.Rule{{Hold: "nsqd.clientV2.decrInFlightCount*", Until: "nsqd.clientV2.SendingMessage*", MaxSpin: 20000, OneShot: true}}
+			w.rc.Logf("ackempty: %s holds m%06d since %v (timeout %v); scanner tick at %v", co.cl.Name, d.mc.pub.N, d.At.Sub(w.rc.start), co.MsgTimeout, tick.Sub(w.rc.start))
+			time.Sleep(wait)
+			w.lastAdvance = wait
+			w.inBurst = true
+			w.rc.Probe("steered_timeout_vs_empty")
+		} else if op.B == 3 {
+			// TOUCH: the message leaves the in-flight set and its timeout queue in two steps and is put
+			// back afterwards; held between the two steps while the channel is emptied and the next
+			// message goes out (whose timeout entry must survive the TOUCH's second step)
+			w.rc.Sched.Rules = []*simrt.Rule{{Hold: "nsqd.Channel.removeFromInFlightPQ*", Until: "nsqd.clientV2.SendingMessage*", MaxSpin: 20000, OneShot: true}}
+			w.inBurst = true
+			w.opAnswer(Op{Uid: op.Uid*16 + 1, Kind: "touch", A: op.A, B: op.C})
+			w.rc.Probe("steered_touch_vs_empty")
+		} else {
+			hold := []string{"nsqd.clientV2.FinishedMessage*", "nsqd.clientV2.RequeuedMessage*"}[op.B%2]
+			w.rc.Sched.Rules = []*simrt.Rule{{Hold: hold, Until: "nsqd.clientV2.SendingMessage*", MaxSpin: 20000, OneShot: true}}
+			w.inBurst = true
+			w.opAnswer(Op{Uid: op.Uid*16 + 1, Kind: []string{"fin", "req"}[op.B%2], A: op.A, B: op.C})
+		}
 		if f := w.opAdmin(Op{Uid: op.Uid*16 + 2, Kind: "admin", S: "empty_channel", A: w.topicIdx(co.Topic), B: w.chanIdx(co.Channel)}); f != nil {
 			w.pending = append(w.pending, f)
 		}
@@ -725,6 +764,9 @@ func (w *qWorld) exec(op Op) {
 		}
 		w.settle()
 		w.afterSettle()
+		if op.B >= 2 && len(w.rc.Sched.Rules) == 1 && w.rc.Sched.Rules[0].Fired > 0 {
+			w.rc.Probe([]string{"steered_timeout_vs_empty_held", "steered_touch_vs_empty_held"}[op.B-2])
+		}
 		w.rc.Sched.Rules = saved
 		w.rc.Probe("steered_acknowledgement_vs_empty")
 		// the next message: with a count that lost a message the connection gets it beyond its RDY
